@@ -184,3 +184,30 @@ fn universally_invalid_uncached(kind: Kind, rng: &mut impl RngCore) -> Vec<(&'st
         _ => vec![],
     }
 }
+
+
+/// A non-identity G1 point of small order (in the cofactor subgroup): [q]P for a curve point P
+/// outside the prime-order subgroup. It pairs to 1 with everything; a decoder that checks the
+/// subgroup never lets it in. Returned as compressed bytes.
+pub fn g1_cofactor_point(rng: &mut impl RngCore) -> [u8; 48] {
+    loop {
+        let (off_sub, _) = g1_off_subgroup_and_off_curve(rng);
+        let p: Option<G1Affine> = Option::from(G1Affine::from_compressed_unchecked(&off_sub));
+        let Some(p) = p else { continue };
+        let p = G1Projective::from(p);
+        // multiply by the group order q, bit by bit (q is not representable as a Scalar)
+        let mut acc = G1Projective::identity();
+        for byte in Q_LE.iter().rev() {
+            for bit in (0..8).rev() {
+                acc = acc.double();
+                if (byte >> bit) & 1 == 1 {
+                    acc += p;
+                }
+            }
+        }
+        let a = acc.to_affine();
+        if !bool::from(a.is_identity()) {
+            return a.to_compressed();
+        }
+    }
+}
